@@ -7,6 +7,7 @@ import (
 	"net"
 	"os"
 	"os/signal"
+	"runtime"
 	"sort"
 	"strings"
 	"sync"
@@ -44,6 +45,13 @@ import (
 //	          this is exact) and the clients see the closure within 5 s;
 //	error  => it is the error of that call's own context (== ctx.Err(): DeadlineExceeded for a deadline, Canceled
 //	          for a cancellation) and the call returned no earlier than that context was done;
+//
+//	Close  => at the moment of ITS return every socket the proxy has accepted is closed: nothing OPEN (Close not
+//	          called on it), nothing BUSY (called, not returned). On a plain listener that holds (a second Close of a
+//	          socket waits for the first); on a TLS listener it does NOT when a handler is inside tls.Conn.Close at that
+//	          moment — crypto/tls answers the second Close at once — : known finding F53, decided from the input by
+//	          closeLingerClass (TLS listener, the socket is a scripted connection's, its own handler closes it within
+//	          what its script explains: StallMs / CloseMs + 1 s, else 250 ms); genCtlCloseDuring aims Close at the teardown;
 //
 // and the whole history goes to the acceptor and the clause oracle of Driver/C11.lean (calls numbered; a call's
 // context events D:k / Z:k).
@@ -106,6 +114,19 @@ type callObs struct {
 	BusyAt   int   `json:"closing_at_ret,omitempty"`
 	BusyIDs  []int `json:"closing_ids,omitempty"`
 	AlertIDs []int `json:"alert_ids,omitempty"` // among the open ones: crypto/tls has handed their close_notify to the socket and waits for it
+	// Close: every socket that was not closed at the return (open or closing) and what became of it (filled in at the end of the case)
+	Linger []lingerObs `json:"linger,omitempty"`
+}
+
+// lingerObs is one accepted socket that the proxy had not closed when a call of Close returned.
+type lingerObs struct {
+	ID          int           `json:"id"`                  // order of acceptance
+	Script      int           `json:"script"`              // index of the connection's script (-1: not one of the case's connections)
+	Busy        bool          `json:"closing"`             // the proxy's Close of the socket itself had begun by then (or began within lingerGrace) and had not returned
+	Alert       bool          `json:"alert"`               // crypto/tls had handed the socket its close_notify by then (or did within lingerGrace): it is inside tls.Conn.Close
+	ClosedAfter time.Duration `json:"closed_after"`        // the proxy's Close of the socket returned this long after the return of Close (-1: not by the end of the case)
+	By          string        `json:"closed_by,omitempty"` // whose call closed the socket: "handler" (handleLoop's deferred conn.Close()) | "close" (a later Proxy.Close) | "other"
+	Allowed     time.Duration `json:"allowed,omitempty"`   // F53: how long the scripted teardown of this connection explains (0: nothing explains it)
 }
 
 // connTracker records, on the proxy's side, which accepted sockets the proxy has closed — and how far that close
@@ -120,6 +141,11 @@ type connTracker struct {
 	open    map[int]struct{}
 	busy    map[int]struct{}
 	alert   map[int]struct{}
+	remote  map[int]string    // order of acceptance -> address of the client's end
+	began   map[int]time.Time // when the proxy's Close of the socket began
+	by      map[int]string    // … and on whose behalf (closerOf)
+	closed  map[int]time.Time // … and when it returned
+	alertAt map[int]time.Time // when crypto/tls handed the socket a close_notify (the first one)
 	n       int
 	tls     bool           // the tracked connections sit below crypto/tls
 	byAddr  map[string]int // address of the client's end -> index of its script
@@ -128,6 +154,7 @@ type connTracker struct {
 
 func newConnTracker(scripts []ConnScript) *connTracker {
 	return &connTracker{open: map[int]struct{}{}, busy: map[int]struct{}{}, alert: map[int]struct{}{},
+		remote: map[int]string{}, began: map[int]time.Time{}, by: map[int]string{}, closed: map[int]time.Time{}, alertAt: map[int]time.Time{},
 		byAddr: map[string]int{}, scripts: scripts}
 }
 
@@ -147,6 +174,44 @@ func (t *connTracker) script(remote string) (closeLat, stall time.Duration) {
 		return 0, 0
 	}
 	return time.Duration(t.scripts[k].CloseMs) * time.Millisecond, time.Duration(t.scripts[k].StallMs) * time.Millisecond
+}
+
+// scriptOf: the index of the script whose client dialled the socket accepted as number id (-1: none of them).
+func (t *connTracker) scriptOf(id int) int {
+	t.mu.Lock()
+	defer t.mu.Unlock()
+	if k, ok := t.byAddr[t.remote[id]]; ok && k < len(t.scripts) {
+		return k
+	}
+	return -1
+}
+
+// times: when the proxy's Close of socket id began and returned, and when crypto/tls handed the socket a close_notify
+// (zero: not so far).
+func (t *connTracker) times(id int) (began, closed, alert time.Time, by string) {
+	t.mu.Lock()
+	defer t.mu.Unlock()
+	return t.began[id], t.closed[id], t.alertAt[id], t.by[id]
+}
+
+// closerOf: on whose behalf the running goroutine closes a socket, read off its stack: "handler" = the connection's own
+// handleLoop (its deferred conn.Close(), through crypto/tls on a TLS listener), "close" = Proxy.Close walking its map,
+// "other" = anything else.
+func closerOf() string {
+	pcs := make([]uintptr, 48)
+	frames := runtime.CallersFrames(pcs[:runtime.Callers(2, pcs)])
+	for {
+		f, more := frames.Next()
+		switch {
+		case strings.Contains(f.Function, "martian.(*Proxy).handleLoop"):
+			return "handler"
+		case strings.HasSuffix(f.Function, "martian.(*Proxy).Close"):
+			return "close"
+		}
+		if !more {
+			return "other"
+		}
+	}
 }
 
 func keysOf(m map[int]struct{}) []int {
@@ -192,6 +257,7 @@ func (l *trackListener) Accept() (net.Conn, error) {
 	id := l.t.n
 	l.t.n++
 	l.t.open[id] = struct{}{}
+	l.t.remote[id] = c.RemoteAddr().String()
 	l.t.mu.Unlock()
 	return &trackConn{Conn: c, t: l.t, id: id, remote: c.RemoteAddr().String(), closing: make(chan struct{})}, nil
 }
@@ -214,10 +280,13 @@ func (c *trackConn) Close() error {
 	first := false
 	c.once.Do(func() {
 		first = true
+		by := closerOf()
 		lat, _ := c.t.script(c.remote)
 		c.t.mu.Lock()
 		delete(c.t.open, c.id)
 		c.t.busy[c.id] = struct{}{}
+		c.t.began[c.id] = time.Now()
+		c.t.by[c.id] = by
 		c.t.mu.Unlock()
 		close(c.closing)
 		if lat > 0 {
@@ -226,6 +295,7 @@ func (c *trackConn) Close() error {
 		c.err = c.Conn.Close()
 		c.t.mu.Lock()
 		delete(c.t.busy, c.id)
+		c.t.closed[c.id] = time.Now()
 		c.t.mu.Unlock()
 	})
 	if first {
@@ -270,6 +340,9 @@ func (c *trackConn) Write(b []byte) (int, error) {
 	if c.t.tls && isAlertRecord(b) {
 		c.t.mu.Lock()
 		c.t.alert[c.id] = struct{}{}
+		if _, ok := c.t.alertAt[c.id]; !ok {
+			c.t.alertAt[c.id] = time.Now()
+		}
 		c.t.mu.Unlock()
 		if _, stall := c.t.script(c.remote); stall > 0 {
 			wait, timedOut := stall, false
@@ -464,6 +537,116 @@ func scriptCloses(r *core.Rand, c *Case, mode string, stall bool) {
 	}
 }
 
+// KNOWN FINDING F53 (class close-returns-during-tls-close-notify): Proxy.Close can return while an accepted socket is
+// still open. On a TLS listener the handler that tears its connection down calls tls.Conn.Close, which first writes the
+// close_notify under a write deadline of 5 s of its own and closes the socket afterwards; crypto/tls serialises Close
+// per connection — a second caller (Proxy.Close walking its map) gets net.ErrClosed AT ONCE while the first is still at
+// work — so Proxy.Close returns with that socket open, for as long as the peer does not take the alert (at most 5 s).
+//
+// The class is decided from the INPUT. A socket that is not closed when a call of Close returns is explained by F53 iff
+//
+//	(1) the case's listener is a TLS listener (Case.TLS; rig b, family ctl: a Close is part of every history), and
+//	(2) the socket is that of one of the case's scripted connections k (ConnScript), it is the connection's own handler
+//	    that closes it in the end (the Close of the socket was begun by handleLoop's deferred conn.Close(), read off the
+//	    stack: closerOf — not by a later call of Proxy.Close, not by anything else), and what is scripted for the proxy's
+//	    end of THAT connection explains for how long it stays open after the return:
+//	      Conns[k].StallMs > 0  the peer is not reading when its close_notify is due: StallMs + lingerSlack — the alert
+//	                            was with the socket when Close returned (the handler was inside tls.Conn.Close);
+//	      Conns[k].CloseMs > 0  the Close of the connection below crypto/tls takes CloseMs: CloseMs + lingerSlack — that
+//	                            Close was under way when Close returned (the handler was inside tls.Conn.Close);
+//	      neither               lingerGrace: the few instructions between a handler's entry into tls.Conn.Close (from which
+//	                            moment on Proxy.Close's call returns at once) and its close of the socket.
+//
+// Everything else is a VIOLATION: a socket open or closing after a Close on a plain listener (there a second Close
+// waits for the first: trackConn), a socket that is not one of the scripted connections, a socket its handler was not
+// closing — one that a later Close closes, or nobody (a Close that skips connections, or gives up on the first error) —,
+// a socket that stays open longer than its script explains, or for good.
+const (
+	classCloseDuringTLSClose = "close-returns-during-tls-close-notify"
+	lingerGrace              = 250 * time.Millisecond
+	lingerSlack              = time.Second
+)
+
+// lingerAllowed: for how long F53 explains that the socket l outlives the return of a Close (0: not at all).
+func (c *Case) lingerAllowed(l lingerObs) time.Duration {
+	if !c.TLS || c.Family != "ctl" || l.Script < 0 || l.Script >= len(c.Conns) || l.By != "handler" {
+		return 0
+	}
+	s := c.Conns[l.Script]
+	switch {
+	case s.StallMs > 0 && l.Alert:
+		return time.Duration(s.StallMs)*time.Millisecond + lingerSlack
+	case s.CloseMs > 0 && l.Busy:
+		return time.Duration(s.CloseMs)*time.Millisecond + lingerSlack
+	}
+	return lingerGrace
+}
+
+// closeLingerClass: the known-finding class of "sockets were not closed when this Close returned" — F53 when every one
+// of them is explained (see above), none otherwise (why says which socket is not).
+func (c *Case) closeLingerClass(o *callObs) (class, why string) {
+	if len(o.Linger) == 0 || len(o.Linger) < o.OpenAt+o.BusyAt {
+		return "", "; the sockets were not followed up"
+	}
+	for _, l := range o.Linger {
+		a := c.lingerAllowed(l)
+		switch {
+		case a == 0 && !c.TLS:
+			return "", fmt.Sprintf("; plain listener: nothing explains socket %d", l.ID)
+		case a == 0 && l.Script >= 0 && l.ClosedAfter >= 0:
+			return "", fmt.Sprintf("; socket %d was not being closed by its handler: it was closed later by %q", l.ID, l.By)
+		case a == 0 && l.Script >= 0:
+			return "", fmt.Sprintf("; socket %d was not being closed by anybody, and never was", l.ID)
+		case a == 0:
+			return "", fmt.Sprintf("; socket %d is not one of the case's scripted connections", l.ID)
+		case l.ClosedAfter < 0:
+			return "", fmt.Sprintf("; socket %d was not closed by the proxy by the end of the case", l.ID)
+		case l.ClosedAfter > a:
+			return "", fmt.Sprintf("; socket %d (script %d) stayed open for %v, its scripted teardown explains %v", l.ID, l.Script, l.ClosedAfter, a)
+		}
+	}
+	return classCloseDuringTLSClose, ""
+}
+
+func lingerText(ls []lingerObs) string {
+	var parts []string
+	for _, l := range ls {
+		st := "nobody was closing it"
+		switch {
+		case l.Busy:
+			st = "its Close had begun (or began within " + lingerGrace.String() + ")"
+		case l.Alert:
+			st = "crypto/tls was holding its close_notify (or was within " + lingerGrace.String() + ")"
+		}
+		end := "never closed"
+		if l.ClosedAfter >= 0 {
+			end = fmt.Sprintf("closed %v later by %q", l.ClosedAfter, l.By)
+		}
+		parts = append(parts, fmt.Sprintf("socket %d (script %d): %s, %s", l.ID, l.Script, st, end))
+	}
+	return strings.Join(parts, "; ")
+}
+
+// lingerOf: what became of the sockets that were not closed when call o of Close returned (t0: start of the case).
+func (cr *caseRun) lingerOf(o *callObs) []lingerObs {
+	ret := cr.log.t0.Add(o.RetAt)
+	var out []lingerObs
+	for _, id := range append(append([]int(nil), o.OpenIDs...), o.BusyIDs...) {
+		began, closed, alert, by := cr.tracker.times(id)
+		l := lingerObs{ID: id, Script: cr.tracker.scriptOf(id), ClosedAfter: -1, By: by}
+		l.Busy = !began.IsZero() && began.Before(ret.Add(lingerGrace))
+		l.Alert = !alert.IsZero() && alert.Before(ret.Add(lingerGrace))
+		if !closed.IsZero() {
+			if l.ClosedAfter = closed.Sub(ret); l.ClosedAfter < 0 {
+				l.ClosedAfter = 0
+			}
+		}
+		l.Allowed = cr.c.lingerAllowed(l)
+		out = append(out, l)
+	}
+	return out
+}
+
 // closeScripted: some connection's proxy-side Close is scripted to take time.
 func (c *Case) closeScripted() bool {
 	for _, s := range c.Conns {
@@ -550,6 +733,47 @@ func genCtlClose(r *core.Rand, j int) *Case {
 	}
 	c.Conns = append(c.Conns, ConnScript{Phase: "late"})
 	scriptCloses(r, c, []string{"long", "short", "none"}[(j/3)%3], j%3 == 2)
+	return c
+}
+
+// genCtlCloseDuring: the j-th case of "Close is called WHILE handlers tear their connections down": requests at the origin
+// are answered D = 300-500 ms after they arrived (closing is set by then: the response carries Connection: close and the
+// handler goes on to conn.Close()), a Shutdown with a short context has given up long before, and Close is called about
+// D + 150 ms after the first call — inside the teardown whenever the teardown takes time (650 ms and more). Crossed with
+// what the teardown is: {plain, TLS} x {Close of the socket returns at once, takes 650-900 ms} and TLS with a peer that
+// does not take its close_notify (650-1200 ms), the last also followed by a Shutdown without deadline (which must wait
+// for the socket that outlived Close). The clause "after Close every accepted socket is closed" is judged at the return
+// of every Close: on a plain listener the proxy's second Close of a socket waits for the first (nothing may be open or
+// closing), on a TLS listener crypto/tls answers the second Close at once — known finding F53, see closeLingerClass.
+func genCtlCloseDuring(r *core.Rand, j int) *Case {
+	v := j % 6
+	c := &Case{Kind: "b", Family: "ctl", Op: "shutdown", ListenerFirst: true, Trigger: "ready", TimeoutMs: 4000,
+		DelayUs: core.Pick(r, []int{0, 1000}), TLS: v == 1 || v == 2 || v == 4 || v == 5}
+	for k := 0; k < 2; k++ {
+		c.Conns = append(c.Conns, ConnScript{Phase: "idle", Sentinel: true, PreExchange: true})
+	}
+	d := r.Range(300, 500)
+	ctxMs := r.Range(60, 150)
+	c.Calls = []Call{{Op: "shutdown", CtxMs: ctxMs, Start: "ret"}, {Op: "close", Start: "ret", GapMs: d + 150 - ctxMs}}
+	if v == 5 {
+		c.Calls = append(c.Calls, Call{Op: "shutdown", Start: "ret", GapMs: core.Pick(r, []int{0, 5, 40})})
+	}
+	nc := r.Range(1, 3)
+	for k := 0; k < nc; k++ {
+		s := ConnScript{Phase: "origin", DelayMs: d + r.Range(-40, 40), After: "close", PreExchange: r.Chance(30), NoBody: r.Chance(20)}
+		switch v {
+		case 0, 2:
+			s.CloseMs = r.Range(650, 900)
+		case 1, 5:
+			s.StallMs = r.Range(650, 1200)
+		}
+		c.Conns = append(c.Conns, s)
+	}
+	if r.Chance(50) {
+		// … next to a connection that is closed by Close itself (it never drains)
+		c.Conns = append(c.Conns, ConnScript{Phase: "idle", PreExchange: r.Chance(60), After: "wait"})
+	}
+	c.Conns = append(c.Conns, ConnScript{Phase: "late"})
 	return c
 }
 
@@ -779,18 +1003,7 @@ func (cr *caseRun) runCalls(out *outcome) {
 				o.OpenIDs, o.BusyIDs, o.AlertIDs = cr.tracker.state()
 				r := cr.log.Add("CR", o.N)
 				o.RetAt, o.Ret, o.OpenAt, o.BusyAt = r.T, true, len(o.OpenIDs), len(o.BusyIDs)
-				if c.TLS && len(o.OpenIDs) > len(o.AlertIDs) {
-					// a handler that has entered tls.Conn.Close and not yet handed the close_notify to the socket (a few
-					// microseconds; crypto/tls lets the Close of Proxy.Close return at once from then on) shows within
-					// 50 ms; a socket nobody is closing stays open
-					time.Sleep(50 * time.Millisecond)
-					open2, _, _ := cr.tracker.state()
-					for _, id := range o.OpenIDs {
-						if !hasInt(open2, id) && !hasInt(o.AlertIDs, id) {
-							o.AlertIDs = append(o.AlertIDs, id)
-						}
-					}
-				}
+				// (what becomes of the sockets that are not closed at this instant is entered at the end of the case: lingerOf)
 				close(returned[i])
 				cr.setKnown()
 				return
@@ -869,14 +1082,16 @@ func evaluateCalls(ctx *core.Ctx, c *Case, out *outcome, doc caseDoc, h string) 
 			continue // reported as a note
 		}
 		if o.Op == "close" {
-			// (a socket whose handler is inside tls.Conn.Close, waiting for its close_notify to be taken, is being
-			// closed by the proxy: crypto/tls lets the Close of Proxy.Close return at once there — counted, not judged)
-			if n := o.OpenAt - len(o.AlertIDs); n > 0 {
-				ctx.SpecFail("after Close every accepted socket is closed", "", doc, h,
-					fmt.Sprintf("call %d (Close %d) returned; %d socket(s) the proxy had accepted and registered were not closed by it at that moment (order of acceptance: %v; in a TLS close: %v)", i, o.N, n, o.OpenIDs, o.AlertIDs))
-			}
-			if len(o.AlertIDs) > 0 {
-				ctx.Count("ctl/close-returned-while-a-handler-waits-in-tls-close-notify")
+			// the clause as it reads, judged at the instant of the return: every socket the proxy has accepted is closed —
+			// its Close of the socket has RETURNED (tracker: neither OPEN nor BUSY)
+			if o.OpenAt > 0 || o.BusyAt > 0 {
+				class, why := c.closeLingerClass(o)
+				if class != "" {
+					ctx.Count("ctl/close-returned-while-a-handler-waits-in-tls-close-notify")
+				}
+				ctx.SpecFail("after Close every accepted socket is closed", class, doc, h,
+					fmt.Sprintf("call %d (Close %d) returned %v after it was called; at that moment the proxy had not called Close on %d socket(s) it had accepted (order of acceptance: %v; crypto/tls holding their close_notify: %v) and its Close of %d more had begun and not returned (%v); what became of them: %s%s",
+						i, o.N, o.RetAt-o.CallAt, o.OpenAt, o.OpenIDs, o.AlertIDs, o.BusyAt, o.BusyIDs, lingerText(o.Linger), why))
 			}
 			continue
 		}
